@@ -274,7 +274,7 @@ fn user_flavor_event(s: &Shape, v: &Val, block: bool, alg: Option<&NamedAlg>, ro
     let status = match r {
         Ok(Ok(())) => json!("ok"),
         Ok(Err(e)) => json!(errname(&e)),
-        Err(p) => json!(format!("panic:{p}")),
+        Err(p) => json!("panic"),
     };
     let calls = uf.log.borrow().clone();
     json!({"op":"userflavor","shape":s.to_json(),"value":v.to_json(),"block":block as u8,"room": if room == usize::MAX { -1 } else { room as i64 },"fin_fail":fin_fail as u8,
